@@ -71,7 +71,7 @@ theorem round_done (hok : ∀ s a, fairEnv s a → ok s a) (orc : String → Out
       rfl, rfl, rfl, rfl, rfl, rfl, rfl⟩
   | cons k rest =>
     -- the pass recomputes the recorded status and writes nothing
-    have hstab := hd.stable s.clock
+    have hstab : recompute s.clock s.d jo.job (foundTasks s jo) = jo.job := hd.stable s.clock
     have htasksEq : generateTaskRefs s.clock jo.job.status.tasks (foundTasks s jo) = jo.job.status.tasks := by
       have := (recompute_sameSpec s.clock s.d jo.job (foundTasks s jo)).2.1
       rw [hstab] at this; exact this.symm
@@ -120,10 +120,13 @@ theorem round_done (hok : ∀ s a, fairEnv s a → ok s a) (orc : String → Out
     · refine ⟨hd.fin, hd.allFin, hd.complete, by rw [hpods, List.append_nil]; exact hd.podsFin,
         by rw [hpods, List.append_nil]; exact hd.recorded, ?_⟩
       intro c
-      have hfound : foundTasks (deliverAll (work s).1) jo' = foundTasks s jo' := by
-        have : (fun r : TaskRef => lookTask (deliverAll (work s).1) r.name) = (fun r => lookTask s r.name) := by
+      have hfound : foundTasks ({ (deliverAll (work s).1) with clock := c } : Sys) jo' =
+          foundTasks ({ s with clock := c } : Sys) jo' := by
+        have : (fun r : TaskRef => lookTask ({ (deliverAll (work s).1) with clock := c } : Sys) r.name) =
+            (fun r => lookTask ({ s with clock := c } : Sys) r.name) := by
           funext r
           unfold lookTask
+          show (findPod (deliverAll (work s).1).pods r.name).bind (podTask c) = (findPod s.pods r.name).bind (podTask c)
           rw [hpods, List.append_nil]
         unfold foundTasks
         rw [this]
